@@ -171,6 +171,10 @@ class Gen:
                 if coefvars and self.coin(0.25):
                     self.features.add("coef-var-cross")
                     ce = H.var(self.r.choice(coefvars))
+                    if self.coin(0.35):
+                        # a squared draw / finite variable as coefficient of a linear cross term (still a linear dependency)
+                        self.features.add("coef-var-squared-cross")
+                        ce = H.pw(ce, 2)
                 e = H.add(e, H.mul(ce, H.var(y)))
             if self.coin(0.5):
                 e = H.add(e, term_const)
